@@ -1407,6 +1407,22 @@ func (m *Monitors) onEDS(inv *simapi.Invocation, out kit.Outcome) {
 		// C15: "nodes selected earlier that are still valid are kept" - whatever made the reconcile rewrite the list
 		// (more replicas, another template edit, the canary replica set re-created): a node of the list it read that
 		// still exists, is eligible and matches the canary node selector must be in the list it writes
+		// (what the reconcile listed, when it listed nodes: another actor may have changed a node between that listing
+		// and the status write - nested schedules -, and the statement is about the cluster state the reconcile read)
+		nodesAsListed := map[string]*corev1.Node{}
+		listedNodes := false
+		for _, c := range inv.Calls {
+			if c.Err == nil && c.Verb == "list" && c.Kind == simapi.KindNode {
+				listedNodes = true
+				for _, o := range c.Objs {
+					if n, ok := o.(*corev1.Node); ok {
+						if _, dup := nodesAsListed[n.Name]; !dup {
+							nodesAsListed[n.Name] = n
+						}
+					}
+				}
+			}
+		}
 		if len(prev) > 0 {
 			var ksel labels.Selector
 			if ns := v.EDS.Spec.Strategy.Canary.NodeSelector; ns != nil {
@@ -1418,11 +1434,17 @@ func (m *Monitors) onEDS(inv *simapi.Invocation, out kit.Outcome) {
 				if seen[name] {
 					continue
 				}
-				o := m.w.S.Peek(simapi.KindNode, "", name)
-				if o == nil {
+				var node *corev1.Node
+				if listedNodes {
+					// (the first listing is the one filtered by the canary node selector when there is one: a node absent
+					// from every listing did not exist, or did not match, in the state the reconcile read)
+					node = nodesAsListed[name]
+				} else if o := m.w.S.Peek(simapi.KindNode, "", name); o != nil {
+					node = o.(*corev1.Node)
+				}
+				if node == nil {
 					continue
 				}
-				node := o.(*corev1.Node)
 				if !oracle.Eligible(node, &v.EDS.Spec.Template.Spec) || (ksel != nil && !ksel.Matches(labels.Set(node.Labels))) {
 					continue
 				}
